@@ -112,7 +112,9 @@ class Session:
             key = hashlib.md5(json.dumps(rec.get("in", rec.get("stream", rec.get("msgs"))), sort_keys=True).encode()).hexdigest()
             obs = rec.get("obs")
             if isinstance(obs, dict):
-                obs = [e for v in obs.get("v", []) for e in v]
+                obs = [e for k in ("v", "runs", "procs", "f") for v in obs.get(k, []) for e in (v if isinstance(v, list) else [v])]
+            elif isinstance(obs, list) and obs and isinstance(obs[0], list):
+                obs = [e for v in obs for e in v]
             if isinstance(obs, list) and any(e.get("e") in ("call", "err", "out", "write") for e in obs):
                 self._distinct.add(key)
         return rejected
